@@ -401,6 +401,28 @@ def _mask(ctx) -> None:
     raises = [e for e in it.events if e.kind == "raise" and e.depth == 0 and not e.loops and e.term[0] == "call"
               and e.term[1] == ("name", "SerifTypeError")]
     ok = not it.falls_through and bool(raises) and not any(e.term == ("const", "NoneType", None) for e in rets)
+    # the Table sibling: same discipline, plus a row position outside the table is an IndexError before a Row is made
+    from ..sites2 import interp_of as _iof
+    from .c08 import _compatible
+    tg = prog.func("table.Table.__getitem__")
+    ti = _iof(prog, tg)
+    t_rets = [e for e in ti.events if e.kind == "return" and e.depth == 0]
+    t_raises = [e for e in ti.events if e.kind == "raise" and not e.loops and e.term[0] == "call" and e.term[1] == ("name", "SerifTypeError")]
+    okt = not ti.falls_through and bool(t_raises) and not any(e.term == ("const", "NoneType", None) for e in t_rets)
+    ctx.ob("d.dispatch-exhaustive", tg, "final-raise", okt, "unsupported key types raise SerifTypeError", tg.node,
+           message="Table.__getitem__ can fall off the end (or return None) for a key it does not support: t[[0, 1]], t[1.5] or a nullable "
+                   "mask silently give None instead of an error")
+    rows_ = [e for e in t_rets if e.term[0] == "call" and e.term[1] == ("name", "Row")]
+    idx_err = [e for e in ti.events if e.kind == "raise" and e.term[0] == "call" and e.term[1] == ("name", "IndexError")]
+    TSELF, TKEY = ("param", tg.params[0]), ("param", tg.params[1])
+    ln = ("call", ("name", "len"), (TSELF,), ())
+    bounded = bool(rows_) and all(
+        any(not _compatible(r.conds, x.conds) and any(ln == y or y == ("attr", TSELF, "_length") for c, _ in x.conds[-1:] for y in subterms(c))
+            and any(any(k == y for y in subterms(c)) for c, _ in x.conds[-1:] for k in (TKEY, ("call", ("attr", TSELF, "_check_duplicate"), (TKEY,), ())))
+            for x in idx_err) for r in rows_)
+    ctx.ob("d.dispatch-exhaustive", tg, "row-bounds", bounded, "t[i]: IndexError unless -len(t) <= i < len(t), before Row(self, i)", tg.node,
+           message="Table.__getitem__(int) makes Row(self, key) without comparing the position with the row count: t[99] returns a hollow Row "
+                   "that only fails when a cell is read")
     ctx.ob("d.dispatch-exhaustive", f, "final-raise", ok, "unsupported key types raise SerifTypeError", f.node,
            message="Vector.__getitem__ can fall off its end (or return None) for an unsupported key type instead of raising SerifTypeError")
 
@@ -601,6 +623,12 @@ def _rows(ctx) -> None:
 
 _V, _T = "vector", "table"
 MUTANTS = [
+    dict(id="table-getitem-falls-off", module="table",
+         old="		raise SerifTypeError(\n			f'Table indices must be column names, integers, slices, boolean vectors or integer vectors, not {type(key).__name__}'\n		)\n",
+         new="", rules=["d.dispatch-exhaustive"], desc="the defect repaired by fix 1f309df"),
+    dict(id="table-row-index-unbounded", module="table",
+         old="			if not -n_rows <= key < n_rows:\n				raise IndexError(f\"Table row index {key} out of range (table has {n_rows} rows)\")\n", new="",
+         rules=["d.dispatch-exhaustive"], desc="the defect repaired by fix 172f6ac"),
     dict(id="invert-keeps-nullable-dtype", module="vector", old="				dtype=DataType(bool, nullable=False),\n				name=self._name,", new="				dtype=self._dtype,\n				name=self._name,",
          rules=["a.compare-kernels"], desc="part of the defect repaired by fix 488e73a"),
     dict(id="invert-none-becomes-true", module="vector", old="				tuple(False if x is None else (not x) for x in self),", new="				tuple(not x for x in self),",
